@@ -37,9 +37,9 @@ def run(ctx):
     for w in ("C06_F17_fixed_mpmc2_spurious_repoll.case",):
         if os.path.exists(os.path.join(VERIF, "corpus", "chan", w)):
             chanlib.liveness_tie(ctx, "corpus-" + w[:-5], [h, "run", os.path.join(VERIF, "corpus", "chan", w)], drv)
-    ns = 3000 if ctx.quick else 40000
+    ns = 3000 if ctx.quick else 15000
     chanlib.tie(ctx, "seq-differential", [h, "gen", "--seed", str(ctx.seed), "--cases", str(ns), "--mode", "seq", "--tier", ctx.tier], [drv])
-    n = 4000 if ctx.quick else 80000
+    n = 4000 if ctx.quick else 25000
     chanlib.liveness_tie(ctx, "async-futures", [h, "gen", "--seed", str(ctx.seed), "--cases", str(n), "--mode", "async",
                                                 "--tier", ctx.tier], drv)
     chanlib.liveness_tie(ctx, "conc-liveness", [h, "gen", "--seed", str(ctx.seed), "--cases", str(n), "--mode", "conc",
